@@ -208,6 +208,7 @@ def fam_control(rnd: random.Random, ninputs: int = 12):
             elif k < 0.8:
                 out += _ifelse(g, g.cond(), block(depth - 1), block(depth - 1) if rnd.random() < 0.7 else [])
             elif k < 0.9:
+                # (a conditional jump to an invalid destination is a recorded finding: probe jumpi-invalid-dest)
                 out += _ifelse(g, g.cond(), terminal(), [])
             else:
                 # counted loop with a concrete trip count: mem[slot] += expr, n times
@@ -228,6 +229,9 @@ def fam_control(rnd: random.Random, ninputs: int = 12):
 
 # ---------------------------------------------------------------------------------------------
 # family: memory / calldata / code copies
+
+
+MEM_OTHER = 0x0000000000000000000000000000000000C0FFEE
 
 
 def fam_memory(rnd: random.Random, ninputs: int = 10):
@@ -259,7 +263,17 @@ def fam_memory(rnd: random.Random, ninputs: int = 10):
                 hw = max(hw, o + sz)
         elif k < 0.65:
             sz = rnd.choice([0, 1, 7, 32, 40])
-            body += [("PUSH", sz), ("PUSH", rnd.choice([0, 1, 5, 30, 1000])), ("PUSH", o), "CODECOPY"]
+            kk = rnd.random()
+            if kk < 0.4:
+                body += [("PUSH", sz), ("PUSH", rnd.choice([0, 1, 5, 30, 1000])), ("PUSH", o), "CODECOPY"]
+            elif kk < 0.7:
+                # a read that starts inside the code and runs past its end (must be zero-filled)
+                body += [("PUSH", sz), ("PUSH", rnd.choice([0, 1, 4, 31])), "CODESIZE", "SUB", ("PUSH", o), "CODECOPY"]
+            else:
+                # EXTCODECOPY of this account, of a small other account, of an account without code
+                who = rnd.choice([TARGET, MEM_OTHER, 0x9999])
+                off = rnd.choice([0, 1, 3, 5, 30]) if who != TARGET else rnd.choice([0, 5, 1000])
+                body += [("PUSH", sz), ("PUSH", off), ("PUSH", o), ("PUSH", who), "EXTCODECOPY"]
             if sz:
                 hw = max(hw, o + sz)
         elif k < 0.8:
@@ -280,7 +294,7 @@ def fam_memory(rnd: random.Random, ninputs: int = 10):
     size = rnd.choice([32, 64, 96, 160, 192, 200])
     code = assemble(body + [("PUSH", size), ("PUSH", rnd.choice([0, 0, 0, 1, 32])), "RETURN"])
     names = [f"cd{i}" for i in range(g.nin)]
-    prog = Prog(accounts={TARGET: code}, calldata=[Sym(nm, 256) for nm in names], name="memory")
+    prog = Prog(accounts={TARGET: code, MEM_OTHER: bytes([0x60, 0x01, 0x60, 0x02, 0x01, 0x00])}, calldata=[Sym(nm, 256) for nm in names], name="memory")
     return prog, gen_inputs(g, rnd, names, ninputs)
 
 
